@@ -77,8 +77,33 @@ class RefSyntaxOp(Op):
         return cases
 
 
+class RefSyntaxTextOp(Op):
+    """validate_pyxform_reference_syntax on the raw cell text, through the modelled scanner (no oracle)"""
+    name = "V.reference_syntax_text"
+    imports = ["PX.Model.RefText"]
+    fn = "fun s => if ref_syntax_ok s then [79%N] else [82%N]"
+    in_ty = "list N"
+    n_quick, n_thorough = 600, 6000
+
+    def generate(self, rng, n):
+        from pyxform.validators.pyxform.pyxform_reference import validate_pyxform_reference_syntax
+        from pyxform.errors import PyXFormError
+        atoms = ["${", "}", "q", "q1", " ", "${q}", "${last-saved#q}", "-", ".", "a b", "${q", "$", "{", "+", "'x'", "${ q }", "${q}}", "${${q}}", "é", "q-1", ":", "${a:b}", "${a:}",
+                 "${last-saved#}", "${last-saved}", "'${q}'", "\"${\"", "\n", "\u00a0", "${q.1}", "${1q}", "${-q}", "${_}", "#", "(", ")", "[", "]", ",", "${q}${r}", "1", "2020-01-02"]
+        cases = []
+        for _ in range(n):
+            v = "".join(rng.choice(atoms) for _ in range(rng.randint(0, 6)))
+            try:
+                validate_pyxform_reference_syntax(v, "survey", 2, "label")
+                exp = "O"
+            except PyXFormError:
+                exp = "R"
+            cases.append({"coq": cstr(v), "expected": exp, "desc": v, "class": exp + ("/ref" if "${" in v else "/plain"), "nontrivial": "${" in v})
+        return cases
+
+
 def ops(tier):
-    return [ParamsOp(), RefSyntaxOp(), c04.RowsOp(), c05.HeaderOp()]
+    return [ParamsOp(), RefSyntaxOp(), RefSyntaxTextOp(), c04.RowsOp(), c05.HeaderOp()]
 
 
 # ---- known findings: narrow predicates over (exception type, innermost pyxform frame) -----------------------------------------
